@@ -1346,12 +1346,14 @@ class Router:
             self._ls_retransmit, args=[sought_gn_addr]
         )
         timer.daemon = True
-        timer.start()
+        # Register the timer before starting it: if it were started first it could expire (and
+        # register its successor) before being registered, and the successor would be cancelled.
         with self._ls_lock:
             old = self._ls_timers.pop(sought_gn_addr, None)
             if old:
                 old.cancel()
             self._ls_timers[sought_gn_addr] = timer
+        timer.start()
 
     def _ls_retransmit(self, sought_gn_addr: GNAddress) -> None:
         """
@@ -1383,9 +1385,9 @@ class Router:
             self._ls_retransmit, args=[sought_gn_addr]
         )
         timer.daemon = True
-        timer.start()
         with self._ls_lock:
             self._ls_timers[sought_gn_addr] = timer
+        timer.start()
 
     def gn_data_indicate_ls_request(
         self, packet: bytes, common_header: CommonHeader, basic_header: BasicHeader
